@@ -196,7 +196,13 @@ func accessorsMatch(wb *hclwrite.Body, m *mBody, tag string) {
 func label() string {
 	s := vf.Str(vf.Param("llen", 1))
 	for i := 0; i < len(s); i++ {
-		vf.Assume(s[i] >= 0x20 && s[i] < 0x7f)
+		if vf.Param("lalpha", 0) == 1 {
+			// the characters that matter to template-escape processing
+			c := s[i]
+			vf.Assume(c == 'a' || c == '$' || c == '%' || c == '{')
+		} else {
+			vf.Assume(s[i]-0x20 < 0x5f)
+		}
 	}
 	return s
 }
